@@ -322,6 +322,21 @@ def hlo_record(rid: str, il: Any, hlo: Any, vals_rng: np.random.Generator) -> di
             "hlo": type(hlo).__name__}
 
 
+def numpy_result_dtype(hlo: Any) -> Any:
+    """dtype NumPy gives when the value-moving high-level ops are applied to
+    the identified operands (None for arithmetic ops, whose promotion is
+    C03's business)."""
+    import pytato as pt
+    from pytato import raising as r
+    if isinstance(hlo, r.BroadcastOp):
+        return np.dtype(hlo.x.dtype)
+    if isinstance(hlo, r.WhereOp):
+        ops = [o for o in (hlo.then, hlo.else_) if isinstance(o, pt.Array)]
+        if len(ops) == 2:
+            return np.result_type(ops[0].dtype, ops[1].dtype)
+    return None
+
+
 def classify(il: Any) -> tuple[str, Any]:
     from pytato.diagnostic import UnknownIndexLambdaExpr
     from pytato.raising import index_lambda_to_high_level_op
@@ -373,6 +388,19 @@ def main(tier: str, only: list[dict] | None = None) -> int:
             run.add("unsupported_export")
             run.coverage.setdefault("unsupported_reasons", {})[str(ex)] = 1
             return
+        # A value-moving operation (broadcast, where, fill) applied with NumPy yields
+        # the operands' own dtype; the index lambda must be able to hold that exactly,
+        # otherwise it is not that operation (it also casts, and the cast can change
+        # values): e.g. x.astype(int8) is not broadcast_to(x).
+        npd = numpy_result_dtype(res)
+        if npd is not None and not np.can_cast(npd, il.dtype, "safe"):
+            run.violation(rid + "|dtype",
+                          f"{rid}: index lambda `{il.expr}` of dtype {il.dtype} was raised to "
+                          f"{type(res).__name__}, whose NumPy result has dtype {npd}: the "
+                          f"lambda's narrowing cast is lost",
+                          record={"prog": prog, "variant": variant},
+                          sig={"op": op, "family": family, "variant": variant,
+                               "clause": "lossy_cast_dropped", "hlo": type(res).__name__})
         hlo_kinds[rec["hlo"]] = hlo_kinds.get(rec["hlo"], 0) + 1
         records.append(rec)
         meta[rid] = {"prog": prog, "variant": variant, "family": family, "op": op,
